@@ -269,3 +269,17 @@ def fresh_dir(path):
     shutil.rmtree(path, ignore_errors=True)
     os.makedirs(path, exist_ok=True)
     return path
+
+
+_LOCKS = []
+
+
+def exclusive(name):
+    """Run directories are a pure function of (engine, seed, run index); two concurrent invocations
+    of the same check with the same seed would share them, so the second one waits."""
+    import fcntl
+    base = "/dev/shm" if os.path.isdir("/dev/shm") else SCRATCH
+    os.makedirs(os.path.join(base, "zysim-locks"), exist_ok=True)
+    handle = open(os.path.join(base, "zysim-locks", f"{name}.lock"), "w")
+    fcntl.flock(handle, fcntl.LOCK_EX)
+    _LOCKS.append(handle)
